@@ -61,8 +61,8 @@ Print Assumptions C05_step.
 
 Example C05_nonvacuous :
   let streams := [{| s_task := "a"; s_coll := 101; s_name := "c1"; s_pch := "p"; s_ch := "q"; s_len := 6 |}]%string in
-  let ls := [Feed 0 None false; Feed 0 None false; Feed 0 None false; Feed 0 (Some 2) false; ApiResume "a"%string;
-             Feed 0 None false; Crash; Feed 0 None false; Feed 0 None false; Feed 0 None false; Feed 0 None false] in
+  let ls := [Feed 0 false None false; Feed 0 false None false; Feed 0 false None false; Feed 0 false (Some 2) false; ApiResume "a"%string;
+             Feed 0 false None false; Crash; Feed 0 false None false; Feed 0 false None false; Feed 0 false None false; Feed 0 false None false] in
   let s := run 2 streams ls in
   forallb (fun i => existsb (fun a => Nat.eqb (snd a) i) (acks s)) (seq 0 6) = true
   /\ option_map ps_id (nlookup (store s) 0) = Some 6%N
